@@ -154,6 +154,53 @@ def random_sequences(seed: int, n: int, length: int):
     return out
 
 
+# ------------------------------------------------------------------ the picture is a function of the protocol state
+def _display_job(arg):
+    """A controller that renders after every step against a fresh controller that replays the same accesses and renders once:
+    the 240x32 picture must be the same (it is determined by the chips' on/off flags, start lines and VRAM - not by what
+    was rendered before).  Both objects are of the same class; reset() and a second controller in the process are part of it."""
+    seqs = arg
+    vlib.setup_repo_imports()
+    from pce500.display.controller_wrapper import HD61202Controller
+    bad = []
+    warm = HD61202Controller()                 # a used controller object, reused for every sequence via reset()
+    for si, acts in enumerate(seqs):
+        warm.reset()
+        fresh = HD61202Controller()
+        for k, a in enumerate(acts):
+            for c in (warm, fresh):
+                if a["ev"] == "W":
+                    c.write(a["addr"], a["v"], cpu_pc=0)
+                else:
+                    c.read(a["addr"], cpu_pc=0)
+            warm.get_display_buffer()          # the used object renders after every access
+        got = warm.get_display_buffer()
+        want = fresh.get_display_buffer()
+        if (got != want).any():
+            ys, xs = (got != want).nonzero()
+            bad.append((si, int(len(xs)), [int(xs[0]), int(ys[0])], acts))
+    return len(seqs), bad
+
+
+def display_determined(cr: CheckRun) -> None:
+    n = 160 if cr.tier == "quick" else 3000
+    seqs = random_sequences(cr.seed + 31, n, 40)
+    # make sure chips are switched on and off individually and filled before / after
+    rnd = random.Random(cr.seed + 32)
+    for acts in seqs:
+        for _ in range(6):
+            pos = rnd.randrange(len(acts) + 1)
+            acts.insert(pos, {"ev": "W", "addr": 0x2000 | rnd.choice([0x0, 0x4, 0x8]), "v": rnd.choice([0x3E, 0x3F, 0x3F])})
+    nsh = min(vlib.NCPU, 16)
+    res = vlib.pmap(_display_job, [seqs[i::nsh] for i in range(nsh)])
+    for nseq, bad in res:
+        cr.cov["evaluations"] += nseq
+        for (si, npx, first, acts) in bad:
+            cr.violation("DisplayDetermined:py", f"py display: after {len(acts)} accesses a controller that rendered after every access shows {npx} pixels "
+                         f"differently from a fresh controller given the same accesses (first at x,y = {first})", {"impl": "py", "clause": "DisplayDetermined", "acts": acts})
+    cr.cov["display_determined_sequences"] = sum(r[0] for r in res)
+
+
 # ------------------------------------------------------------------ pixel map
 
 def _py_pixelmap_job(arg):
@@ -288,6 +335,8 @@ def run(cr: CheckRun) -> None:
     rnd = random_sequences(cr.seed, 400 if quick else 6000, 120)
     campaign(cr, rnd, "random")
     cr.mark("random")
+    display_determined(cr)
+    cr.mark("display-determined")
     # pixel maps: complete enumeration of all 8192 VRAM bits on both implementations
     pixelmap(cr, "rs", 0xFF)
     cr.mark("pixelmap-rs")
@@ -313,6 +362,11 @@ def replay(path: str) -> int:
     vlib.setup_repo_imports()
     vlib.build_vh()
     rec = json.loads(Path(path).read_text())["replay"]
+    if rec.get("clause") == "DisplayDetermined":
+        n, bad = _display_job([rec["acts"]])
+        for b in bad:
+            print("DisplayDetermined fails:", b[1], "pixels differ, first at", b[2])
+        return 1 if bad else 0
     if "acts" not in rec:
         cr = CheckRun("C15", "quick", 0, LEVEL)
         pixelmap(cr, rec["impl"], rec["base"], rec.get("start", 0))
